@@ -1102,7 +1102,8 @@ func runC19(cfg *RunCfg) {
 		if d.timeout || p.timeout {
 			st.Fail(i, "timeout", "a call or a quiescence wait timed out", h)
 		}
-		if sent1 != sent0 {
+		unchanged := sent1 == sent0
+		if !unchanged {
 			st.Fail(i, "global-status-modified", "a package-level status changed: "+sent1, h)
 			sent0 = sent1
 		}
@@ -1202,8 +1203,15 @@ func runC19(cfg *RunCfg) {
 			VB([]byte("CALLER")), c.decVal, statIn, VN(int64(c.sc.setCodec)), VL(ops...), c.marVal, failIn, fwdIn)
 		observed := VL(d.val(c.push), p.val(c.push),
 			VL(VN(int64(p.fwdCalls)), VB([]byte(p.labelIP)), VB([]byte(p.labelMeth))),
-			VBool(sent1 == sent0))
-		cw.Add(inputs, observed)
+			VBool(unchanged))
+		// Base/Val.v's reader is quadratic in the length of one atom; pairs with a body above
+		// 4 KiB are checked by the oracle above only, not replayed through the extracted model.
+		if len(inputs)+len(observed) <= 60000 {
+			cw.Add(inputs, observed)
+			st.Count("model-replay:yes")
+		} else {
+			st.Count("model-replay:skipped-large")
+		}
 
 		if c.route != "own" && (len(c.body) > 0 || len(c.meta) > 0 || c.sc.stat != nil || c.fail != "none") {
 			distinct.Add(inputs)
